@@ -494,18 +494,7 @@ func init() {
 				p.Dense, p.MaxConns = true, 2
 				return p
 			}(),
-			func() *Profile {
-				// acyclic graphs (diamonds, shared children) without events: here the
-				// collector is expected to be exact, and only the precise condition of
-				// the in-flight retention finding is excused
-				p := dataProfile("c02-acyclic", map[string]int{"gcburst": 12, "subscribe": 24, "unsubscribe": 18, "get": 5, "answer": 30, "call": 2, "new": 0,
-					"mutate": 0, "refburst": 0, "custom": 0, "silent": 0, "sysreset": 0, "qmutate": 0, "qevent": 0, "httpget": 0, "close": 0, "delete": 0, "reaccess": 0, "token": 0})
-				p.Dense, p.Acyclic, p.MaxConns, p.Throttle, p.Prologue = true, true, 2, false, 0
-				p.AccessOut = map[string]int{"grant": 1}
-				p.GetOut = map[string]int{"ok": 1}
-				p.CallOut = map[string]int{"resource": 4, "result": 1}
-				return p
-			}()},
+			c02Acyclic(), c02Acyclic()},
 		Config:   graphConfig,
 		Monitors: func() []Monitor { return []Monitor{NewMonC02()} },
 		Trigger:  triggerData,
@@ -1307,4 +1296,18 @@ func triggerRefetchAfterRelease(w *World, v Violation) string {
 		}
 	}
 	return ""
+}
+
+// c02Acyclic: acyclic graphs (diamonds, shared children) without events,
+// deletes, resets or denials. Here the reference collector is expected to be
+// exact, and only the precise condition of the in-flight retention finding is
+// excused (WorldConfig.PreciseRetention). Listed twice in C02's profiles.
+func c02Acyclic() *Profile {
+	p := dataProfile("c02-acyclic", map[string]int{"gcburst": 12, "subscribe": 24, "unsubscribe": 18, "get": 5, "answer": 30, "call": 2, "new": 0,
+		"mutate": 0, "refburst": 0, "custom": 0, "silent": 0, "sysreset": 0, "qmutate": 0, "qevent": 0, "httpget": 0, "close": 0, "delete": 0, "reaccess": 0, "token": 0})
+	p.Dense, p.Acyclic, p.MaxConns, p.Throttle, p.Prologue = true, true, 2, false, 0
+	p.AccessOut = map[string]int{"grant": 1}
+	p.GetOut = map[string]int{"ok": 1}
+	p.CallOut = map[string]int{"resource": 4, "result": 1}
+	return p
 }
